@@ -415,8 +415,13 @@ def pool_strategy(draw):
             case.get("duplicate") is None:
         k = draw(st.integers(2, 4))
         lens = [draw(st.sampled_from([3, 3, 2, 4, 3])) for _ in range(k)]
+        if draw(st.sampled_from([False, False, False, True])):
+            # the largest grids of the property (512 .. 1024 combinations)
+            lens = draw(st.sampled_from([[4, 4, 4, 4, 4], [8, 8, 8],
+                                         [8, 8, 9], [4, 4, 4, 4, 3]]))
+            k = len(lens)
         case["args"] = [[nm, list(range(10 * i, 10 * i + n))]
-                        for i, (nm, n) in enumerate(zip("wxyz", lens))]
+                        for i, (nm, n) in enumerate(zip("vwxyz", lens))]
         case["containers"] = ["list"] * k
         case["spelling"] = "dict"
         case["constants"] = {}
